@@ -1,0 +1,221 @@
+//go:build verif
+
+package node
+
+import (
+	hg "github.com/mosaicnetworks/babble/src/hashgraph"
+	"github.com/mosaicnetworks/babble/src/net"
+	_state "github.com/mosaicnetworks/babble/src/node/state"
+	"github.com/mosaicnetworks/babble/src/peers"
+	"github.com/mosaicnetworks/babble/src/proxy"
+	"github.com/sirupsen/logrus"
+)
+
+// This file is only compiled with the "verif" build tag. It gives the external
+// verification harness (/verif) synchronous access to the unexported core and
+// to the real RPC / gossip code paths of Node. It adds no behaviour of its own:
+// every method is a thin call-through to existing code.
+
+// VerifCore wraps the unexported core.
+type VerifCore struct {
+	c *core
+}
+
+// NewVerifCore builds a bare core (same arguments as newCore).
+func NewVerifCore(
+	validator *Validator,
+	peers *peers.PeerSet,
+	genesisPeers *peers.PeerSet,
+	store hg.Store,
+	proxyCommitCallback proxy.CommitCallback,
+	maintenanceMode bool,
+	logger *logrus.Entry) *VerifCore {
+	return &VerifCore{c: newCore(validator, peers, genesisPeers, store, proxyCommitCallback, maintenanceMode, logger)}
+}
+
+// Hg returns the underlying hashgraph.
+func (v *VerifCore) Hg() *hg.Hashgraph { return v.c.hg }
+
+// Validator returns the core's validator.
+func (v *VerifCore) Validator() *Validator { return v.c.validator }
+
+// Sync calls core.sync.
+func (v *VerifCore) Sync(fromID uint32, events []hg.WireEvent) error { return v.c.sync(fromID, events) }
+
+// EventDiff calls core.eventDiff.
+func (v *VerifCore) EventDiff(known map[uint32]int) ([]*hg.Event, error) { return v.c.eventDiff(known) }
+
+// KnownEvents calls core.knownEvents.
+func (v *VerifCore) KnownEvents() map[uint32]int { return v.c.knownEvents() }
+
+// ToWire calls core.toWire.
+func (v *VerifCore) ToWire(events []*hg.Event) ([]hg.WireEvent, error) { return v.c.toWire(events) }
+
+// FromWire calls core.fromWire.
+func (v *VerifCore) FromWire(events []hg.WireEvent) ([]hg.Event, error) { return v.c.fromWire(events) }
+
+// AddTransactions calls core.addTransactions.
+func (v *VerifCore) AddTransactions(txs [][]byte) { v.c.addTransactions(txs) }
+
+// AddInternalTransaction calls core.addInternalTransaction and returns a
+// function polling the promise (non-blocking): (answered, accepted,
+// acceptedRound, peers).
+func (v *VerifCore) AddInternalTransaction(tx hg.InternalTransaction) func() (bool, bool, int, []*peers.Peer) {
+	p := v.c.addInternalTransaction(tx)
+	return func() (bool, bool, int, []*peers.Peer) {
+		select {
+		case r := <-p.respCh:
+			return true, r.accepted, r.acceptedRound, r.peers
+		default:
+			return false, false, 0, nil
+		}
+	}
+}
+
+// ProcessSigPool calls core.processSigPool.
+func (v *VerifCore) ProcessSigPool() error { return v.c.processSigPool() }
+
+// FastForward calls core.fastForward.
+func (v *VerifCore) FastForward(block *hg.Block, frame *hg.Frame) error {
+	return v.c.fastForward(block, frame)
+}
+
+// ProcessAcceptedInternalTransactions calls the core method of the same name.
+func (v *VerifCore) ProcessAcceptedInternalTransactions(roundReceived int, receipts []hg.InternalTransactionReceipt) error {
+	return v.c.processAcceptedInternalTransactions(roundReceived, receipts)
+}
+
+// GetAnchorBlockWithFrame calls core.getAnchorBlockWithFrame.
+func (v *VerifCore) GetAnchorBlockWithFrame() (*hg.Block, *hg.Frame, error) {
+	return v.c.getAnchorBlockWithFrame()
+}
+
+// Busy calls core.busy.
+func (v *VerifCore) Busy() bool { return v.c.busy() }
+
+// Bootstrap calls core.bootstrap.
+func (v *VerifCore) Bootstrap() error { return v.c.bootstrap() }
+
+// SetHeadAndSeq calls core.setHeadAndSeq.
+func (v *VerifCore) SetHeadAndSeq() error { return v.c.setHeadAndSeq() }
+
+// AddSelfEvent calls core.addSelfEvent.
+func (v *VerifCore) AddSelfEvent(otherHead string) error { return v.c.addSelfEvent(otherHead) }
+
+// RecordHeads calls core.recordHeads.
+func (v *VerifCore) RecordHeads() error { return v.c.recordHeads() }
+
+// InsertEventAndRunConsensus calls the core method of the same name.
+func (v *VerifCore) InsertEventAndRunConsensus(ev *hg.Event, setWireInfo bool) error {
+	return v.c.insertEventAndRunConsensus(ev, setWireInfo)
+}
+
+// Head returns core.head and core.seq.
+func (v *VerifCore) Head() (string, int) { return v.c.head, v.c.seq }
+
+// Validators returns core.validators.
+func (v *VerifCore) Validators() *peers.PeerSet { return v.c.validators }
+
+// Peers returns core.peers.
+func (v *VerifCore) Peers() *peers.PeerSet { return v.c.peers }
+
+// GenesisPeers returns core.genesisPeers.
+func (v *VerifCore) GenesisPeers() *peers.PeerSet { return v.c.genesisPeers }
+
+// SelectorPeers returns the peer-selector's peer-set.
+func (v *VerifCore) SelectorPeers() *peers.PeerSet { return v.c.peerSelector.getPeers() }
+
+// Rounds returns acceptedRound, removedRound, targetRound, lastPeerChangeRound.
+func (v *VerifCore) Rounds() (accepted, removed, target, lastPeerChange int) {
+	return v.c.acceptedRound, v.c.removedRound, v.c.targetRound, v.c.lastPeerChangeRound
+}
+
+// SetAcceptedRound sets core.acceptedRound and resets removedRound, exactly as
+// Node.join does when a join response says accepted.
+func (v *VerifCore) SetAcceptedRound(r int) {
+	v.c.acceptedRound = r
+	v.c.removedRound = -1
+}
+
+// TransactionPool returns a copy of the transaction pool slice.
+func (v *VerifCore) TransactionPool() [][]byte {
+	res := make([][]byte, len(v.c.transactionPool))
+	copy(res, v.c.transactionPool)
+	return res
+}
+
+// InternalTransactionPool returns a copy of the internal transaction pool.
+func (v *VerifCore) InternalTransactionPool() []hg.InternalTransaction {
+	res := make([]hg.InternalTransaction, len(v.c.internalTransactionPool))
+	copy(res, v.c.internalTransactionPool)
+	return res
+}
+
+// SelfBlockSignatures returns the contents of the self block-signature pool.
+func (v *VerifCore) SelfBlockSignatures() []hg.BlockSignature { return v.c.selfBlockSignatures.Slice() }
+
+// Heads returns a copy of core.heads as id => event hash ("" for nil).
+func (v *VerifCore) Heads() map[uint32]string {
+	res := map[uint32]string{}
+	for id, ev := range v.c.heads {
+		if ev == nil {
+			res[id] = ""
+		} else {
+			res[id] = ev.Hex()
+		}
+	}
+	return res
+}
+
+// PromiseCount returns the number of outstanding join promises.
+func (v *VerifCore) PromiseCount() int { return len(v.c.promises) }
+
+/*******************************************************************************
+Node
+*******************************************************************************/
+
+// VerifCore returns a wrapper around the node's core.
+func (n *Node) VerifCore() *VerifCore { return &VerifCore{c: n.core} }
+
+// VerifProcessRPC calls the real processRPC synchronously.
+func (n *Node) VerifProcessRPC(rpc net.RPC) { n.processRPC(rpc) }
+
+// VerifGossip calls the real gossip routine synchronously.
+func (n *Node) VerifGossip(peer *peers.Peer) error { return n.gossip(peer) }
+
+// VerifPull calls the real pull routine synchronously.
+func (n *Node) VerifPull(peer *peers.Peer) (map[uint32]int, error) { return n.pull(peer) }
+
+// VerifPush calls the real push routine synchronously.
+func (n *Node) VerifPush(peer *peers.Peer, known map[uint32]int) error { return n.push(peer, known) }
+
+// VerifMonologue calls the real monologue routine.
+func (n *Node) VerifMonologue() error { return n.monologue() }
+
+// VerifCheckSuspend calls the real checkSuspend routine.
+func (n *Node) VerifCheckSuspend() { n.checkSuspend() }
+
+// VerifFastForward calls the real fastForward routine (CatchingUp state).
+func (n *Node) VerifFastForward() error { return n.fastForward() }
+
+// VerifJoin calls the real join routine (Joining state).
+func (n *Node) VerifJoin() error { return n.join() }
+
+// VerifAddTransaction calls the real addTransaction.
+func (n *Node) VerifAddTransaction(tx []byte) { n.addTransaction(tx) }
+
+// VerifTransition calls the real transition method.
+func (n *Node) VerifTransition(s _state.State) { n.transition(s) }
+
+// VerifSetBabblingOrCatchingUpState calls the real method of the same name.
+func (n *Node) VerifSetBabblingOrCatchingUpState() { n.setBabblingOrCatchingUpState() }
+
+// VerifInitialUndeterminedEvents returns n.initialUndeterminedEvents.
+func (n *Node) VerifInitialUndeterminedEvents() int { return n.initialUndeterminedEvents }
+
+// VerifLockCore takes the node's coreLock, runs f and releases it.
+func (n *Node) VerifLockCore(f func()) {
+	n.coreLock.Lock()
+	defer n.coreLock.Unlock()
+	f()
+}
